@@ -263,6 +263,10 @@ def con_tokens(constructs):
         toks += [wire.term(r), str(len(cs))]
         for c in cs:
             toks += ["1" if c["usesThis"] else "0"] + pats(c["head"]) + pats(c["body"]) + pats(c["ne"])
+            if c.get("binds"):
+                toks += ["BINDS", str(len(c["binds"]))]
+                for var, fn, args in c["binds"]:
+                    toks += [wire.esc(var), wire.term(fn), str(len(args))] + [pt(a) for a in args]
     return " ".join(toks)
 
 
@@ -280,7 +284,9 @@ class RefRules:
     shape that conform to all of its conditions *at the time it fires*; all outputs of one firing are computed on the same graph
     and then added; with iterate a firing is repeated while it adds something, and the shape's pass is repeated likewise."""
 
-    def __init__(self, sg: Graph, dg: Graph, iterate=False, focus_nodes=None, use_shapes=None):
+    def __init__(self, sg: Graph, dg: Graph, iterate=False, focus_nodes=None, use_shapes=None, expr_eval=None, ref_factory=None):
+        self.ref_factory = ref_factory   # (sg, graph) -> reference validator (targets, conformance); default: Core only
+        self.expr_eval = expr_eval     # (graph, expression, focus) -> set, for expressions beyond this/const/path/union
         self.sg = sg
         self.g = Graph()
         for t in dg:
@@ -294,6 +300,8 @@ class RefRules:
         return Decimal(0) if not vs else Decimal(vs[0].value)
 
     def ref(self):
+        if self.ref_factory is not None:
+            return self.ref_factory(self.sg, self.g)
         return oracle_core.Ref(self.sg, self.g)
 
     def conditions(self, r):
@@ -336,6 +344,8 @@ class RefRules:
             for p in ps:
                 out |= set(oracle_core.eval_path(self.g, oracle_core.decode_path(sg, p), f))
             return out
+        if self.expr_eval is not None:
+            return self.expr_eval(self.g, e, f)
         raise oracle_core.Unsupported("expression")
 
     def outputs(self, r, a):
